@@ -13,12 +13,14 @@ import (
 	"time"
 
 	"github.com/go-kit/log"
+	metallbv1beta1 "go.universe.tf/metallb/api/v1beta1"
 	"go.universe.tf/metallb/internal/config"
 	"go.universe.tf/metallb/internal/k8s"
 	"go.universe.tf/metallb/internal/k8s/controllers"
 	"go.universe.tf/metallb/internal/layer2"
 	v1 "k8s.io/api/core/v1"
 	discovery "k8s.io/api/discovery/v1"
+	metav1 "k8s.io/apimachinery/pkg/apis/meta/v1"
 	"k8s.io/apimachinery/pkg/types"
 )
 
@@ -74,8 +76,20 @@ func TestVerif_C20(t *testing.T) {
 		g := &sboxGen{r: r.Fork(), sb: proto}
 		g.seed()
 		store := proto.k.Store
+		// layer-2 heavy universe: this node is the only live speaker (it wins every election it is
+		// eligible for) and one advertisement selects every pool and node; between configuration
+		// versions the interface lists of the advertisements change, so that re-announcements carry
+		// another scope
+		proto.slist = &sboxSList{disabled: false, members: map[string]bool{sboxMyNode: true}}
+		all := &metallbv1beta1.L2Advertisement{ObjectMeta: metav1.ObjectMeta{Name: "l2-all", Namespace: sboxNS}}
+		store.Put(all)
 		var cfgs []*config.Config
-		for len(cfgs) < 4 {
+		for len(cfgs) < 6 {
+			for _, k := range vfSortedKeys(store.L2Advs) {
+				a := store.L2Advs[k].DeepCopy()
+				a.Spec.Interfaces = vfPick(r, [][]string{nil, {"eth0"}, {"eth1"}, {"eth0", "eth1"}})
+				store.Put(a)
+			}
 			cfg, err := config.For(sboxResources(store), config.DontValidate)
 			if err != nil {
 				panic(err)
@@ -205,6 +219,17 @@ func TestVerif_C20(t *testing.T) {
 					if dr.Chance(1, 4) {
 						runtime.Gosched()
 					}
+					if i == perDriver/2 && dr.Chance(1, 2) {
+						// a burst, as a full re-sync after a configuration change is: the configuration
+						// flips and the same services are delivered back to back
+						for b := 0; b < 12; b++ {
+							lis.ConfigHandler(lg, cfgs[b%len(cfgs)])
+							for _, key := range keys[:min(len(keys), 3)] {
+								svc := store.Services[key].DeepCopy()
+								lis.ServiceHandler(lg, key, svc, slicesOf(svc))
+							}
+						}
+					}
 				}
 			}()
 		}
@@ -269,6 +294,8 @@ func TestVerif_C20(t *testing.T) {
 				}
 			}
 		}()
+		var spamMu sync.Mutex
+		lastSpam := map[string][]string{} // address -> scopes of the requests for gratuitous announcements, in the order received
 		fwg.Add(1)
 		go func() { // plays the spam loop: takes an advertisement from the queue and sends a gratuitous round for it
 			defer fwg.Done()
@@ -280,6 +307,10 @@ func TestVerif_C20(t *testing.T) {
 				case <-stop:
 					return
 				case adv := <-q:
+					ip, scope := layer2.VerifAdvText(adv)
+					spamMu.Lock()
+					lastSpam[ip] = append(lastSpam[ip], scope)
+					spamMu.Unlock()
 					// as the real loop: remember the advertisement, then a round over everything remembered
 					known = append(known, adv)
 					if len(known) > 32 {
@@ -328,6 +359,11 @@ func TestVerif_C20(t *testing.T) {
 		}
 		c.Nontrivial(fmt.Sprint(sig))
 		got := s20Observe(sb, keys)
+		for _, adv := range sb.l2.DrainSpam() { // what the stopped spam loop had not taken yet
+			ip, scope := layer2.VerifAdvText(adv)
+			lastSpam[ip] = append(lastSpam[ip], scope)
+		}
+		wantSpam := map[string][]string{}
 		// serial replay
 		rp := mk()
 		for _, e := range elog {
@@ -339,7 +375,10 @@ func TestVerif_C20(t *testing.T) {
 			case "node":
 				rp.ctl.SetNode(lg, e.node)
 			}
-			rp.l2.DrainSpam()
+			for _, adv := range rp.l2.DrainSpam() {
+				ip, scope := layer2.VerifAdvText(adv)
+				wantSpam[ip] = append(wantSpam[ip], scope)
+			}
 		}
 		want := s20Observe(rp, keys)
 		c.Count("replay-comparisons")
@@ -352,7 +391,12 @@ func TestVerif_C20(t *testing.T) {
 			c.Violation("concurrent-differs-from-serial:announced-services", fmt.Sprintf("%v vs %v", got.Announced, want.Announced), nil)
 		case !reflect.DeepEqual(got.Peers, want.Peers):
 			c.Violation("concurrent-differs-from-serial:peers-for-service", fmt.Sprintf("%v vs %v", got.Peers, want.Peers), nil)
+		case !reflect.DeepEqual(lastSpam, wantSpam):
+			// the spam loop announces, per address, the request it received last: the requests must reach it
+			// in the order of the handlers that made them
+			c.Violation("concurrent-differs-from-serial:gratuitous-requests-per-address", s20FirstSeqDiff(lastSpam, wantSpam), nil)
 		}
+		c.CountN("addresses-with-gratuitous-requests-compared", len(wantSpam))
 		if c.WantSample() {
 			k := len(sig)
 			if k > 40 {
@@ -393,4 +437,23 @@ func s20DeadlockSite(dump string) string {
 		}
 	}
 	return ""
+}
+
+func s20FirstSeqDiff(got, want map[string][]string) string {
+	for _, ip := range vfSortedKeys(want) {
+		if !reflect.DeepEqual(got[ip], want[ip]) {
+			g, w := got[ip], want[ip]
+			i := 0
+			for i < len(g) && i < len(w) && g[i] == w[i] {
+				i++
+			}
+			return fmt.Sprintf("requests for gratuitous announcements of %s: %d received, %d made by the handlers in their serial order; first difference at #%d: received %v, made %v", ip, len(g), len(w), i, g[i:min(len(g), i+3)], w[i:min(len(w), i+3)])
+		}
+	}
+	for _, ip := range vfSortedKeys(got) {
+		if _, ok := want[ip]; !ok {
+			return fmt.Sprintf("requests for %s were received although the serial order makes none", ip)
+		}
+	}
+	return "sequences differ"
 }
